@@ -194,24 +194,46 @@ def _run_cli(cmd, text, timeout):
         os.unlink(path)
 
 
+# budget of the command-line fall back per contract variant (reset by verify.run_variant): an obligation that z3 leaves
+# open costs up to 2 x CLI_TIMEOUT_S more; a variant with many of them (typically a changed function that no longer fits its
+# invariants) must not take a quarter of an hour to be reported as undecided
+CLI_BUDGET_S = int(os.environ.get('PYVC_CLI_BUDGET_S', '60'))
+_cli_spent = [0.0]
+_unknowns = [0]
+
+
+def reset_cli_budget():
+    _cli_spent[0] = 0.0
+    _unknowns[0] = 0
+
+
 def prove(assumptions, goal, both=False):
     """Validity of  /\\ assumptions => goal.  z3 in-process first; on unknown the same
     query goes to cvc5 and z3-new as SMT-LIB text.  `both` additionally cross-checks a
     z3 verdict with cvc5 (thorough tier); a disagreement is reported as status 'fault'."""
     t0 = time.time()
     query = list(assumptions) + [z3.Not(goal)]
-    st, model = check_sat(query)
+    # a variant that already has two obligations nobody could decide is undecided whatever comes next: the remaining ones get a
+    # short budget (a refutation found quickly is still reported; nothing is proved or refuted by the shortcut)
+    st, model = check_sat(query, Z3_TIMEOUT_MS if _unknowns[0] < 2 else min(Z3_TIMEOUT_MS, 4000))
     backend = 'z3'
-    if st == 'unknown':
+    if st == 'unknown' and _cli_spent[0] < CLI_BUDGET_S * (3 if both else 1):
+        t1 = time.time()
         text = to_smt2(query)
-        r = _run_cli(['/usr/bin/cvc5', '--strings-exp', '--tlimit=%d' % (CLI_TIMEOUT_S * 1000)], text,
-                     CLI_TIMEOUT_S + 5)
+        # quick tier: 20 s per command-line solver (the obligations that need the fall back on the unchanged tree are answered
+        # by cvc5 in about a second); thorough tier: the full CLI_TIMEOUT_S
+        cli_t = CLI_TIMEOUT_S if both else min(CLI_TIMEOUT_S, 20)
+        r = _run_cli(['/usr/bin/cvc5', '--strings-exp', '--tlimit=%d' % (cli_t * 1000)], text, cli_t + 5)
         if r in ('sat', 'unsat'):
             st, backend = r, 'cvc5'
         else:
-            r = _run_cli(['z3-new', 'smt.random_seed=7', '-T:%d' % CLI_TIMEOUT_S], text, CLI_TIMEOUT_S + 5)
+            r = _run_cli(['z3-new', 'smt.random_seed=7', '-T:%d' % cli_t], text, cli_t + 5)
             if r in ('sat', 'unsat'):
                 st, backend = r, 'z3-new-cli'
+        if st == 'unknown':
+            _cli_spent[0] += time.time() - t1      # only fruitless attempts count
+    if st == 'unknown':
+        _unknowns[0] += 1
     elif both:
         # cross-check of a decided verdict: a short budget is enough (cvc5 either confirms quickly or gives up on the
         # quantified obligations; only a *contradicting* verdict matters)
